@@ -122,3 +122,31 @@ def repetitions(doc, sizes=(9000, 60000), seps=(b",", b"&", b";", b"/")):
         if doc:
             out.append(("repeat-document:%d" % size, doc * max(2, size // len(doc))))
     return out
+
+
+# characters whose UTF-8 length changes under to_lowercase / to_uppercase, or that equal an ASCII letter under case
+# folding (offsets computed on a case-mapped copy do not fit the original), plus a few other classics
+SPECIAL_TOKENS = ["İ", "Ⱥ", "Ⱦ", "K", "Ω", "ẞ", "ß", "ŉ", "ﬁ", "ǰ", "ΐ", "\U00010400", "ı", "ſ", "‍", "﻿", "­", "́"]
+
+
+def special_inserts(doc, max_len=120):
+    """one special token inserted at every position of a short document and of its truncations behind each delimiter
+    character (= ; : , quote): deterministic; pairs 'odd character somewhere' with 'value cut short'"""
+    out = []
+    if not doc or len(doc) > max_len:
+        return out
+    try:
+        text_ = doc.decode("utf-8")
+    except UnicodeDecodeError:
+        return out
+    bases = [text_] + [text_[:i + 1] for i, ch in enumerate(text_) if ch in "=;:,\"'" and i + 1 < len(text_)]
+    seen = set()
+    for bi, base in enumerate(bases[:10]):
+        toks = SPECIAL_TOKENS if bi == 0 else SPECIAL_TOKENS[:6]
+        for tok in toks:
+            for pos in range(len(base) + 1):
+                m = base[:pos] + tok + base[pos:]
+                if m not in seen:
+                    seen.add(m)
+                    out.append(("special-insert" if bi == 0 else "special-insert+truncate", m.encode("utf-8")))
+    return out
